@@ -475,6 +475,14 @@ def fresh_migration_app_cases(ctx):
         if r.get('stray_labels'):
             ctx.fail(None, 'after the hand-over of %s django_migrations has rows for labels that are no app of the '
                      'project: %r' % (app, r['stray_labels']), rep)
+        signalled = [l for ls in r['runs'][1].get('applying_evolution', []) for l in ls]
+        if r.get('expected_evolutions') is not None and len(r['expected_evolutions']) > 1 and \
+                signalled != r['expected_evolutions']:      # (a hand-over alone has no SQL and is not announced)
+            ctx.fail(None, 'the hand-over run applied the evolutions %r of %s, pending were %r'
+                     % (signalled, app, r['expected_evolutions']), rep)
+        if r.get('expected_columns') is not None and r.get('columns') != r['expected_columns']:
+            ctx.fail(None, 'after the hand-over the table of %s has the columns %r, the models have %r'
+                     % (app, r.get('columns'), r['expected_columns']), rep)
         if sorted(r['vapp_rows']) != sorted(names):
             ctx.fail(None, 'after the hand-over next to a fresh migration-managed app django_migrations has %r for the '
                      'app, expected each of %r once' % (r['vapp_rows'], names), rep)
